@@ -264,6 +264,24 @@ pub fn run(a: &Args) -> i32 {
             }
         }
     }
+    // the derive must make cargo watch the QUERY FILE (QUERY stays the verbatim document only if an edit of the
+    // file triggers a rebuild): the file has to appear in the dep-info of the compiled crate
+    if let Some(dep) = &build.dep_info {
+        for (id, _, op_name, _) in &compiled_meta {
+            if !build.compiled.contains(id) || !codes[*id].tokens.starts_with("#[derive") {
+                continue;
+            }
+            rep.case(Some(&format!("derive-tracks-query-file|{}", id)));
+            rep.count("compiled:derive-query-file-tracked");
+            let qfile = format!("files/q{}.graphql", id);
+            if !dep.contains(&qfile) {
+                rep.fail("derive-does-not-track-the-query-file", json!({"operation": op_name, "query_file": qfile,
+                    "what": "the query file of a #[derive(GraphQLQuery)] is not among the files cargo watches for the crate (no include_str! of it was emitted): an edit of the document would leave QUERY stale"}));
+            }
+        }
+    } else if build.exe.is_some() {
+        rep.internal.push("no dep-info file next to the consumer executable".into());
+    }
     if let Some(exe) = build.exe.clone() {
         let mut reqs = Vec::new();
         let mut meta = Vec::new();
